@@ -2728,3 +2728,23 @@ fire("c16-binding-converter-drops-multiset-counts", ["C16"], MPT,
      "        return multiset.Multiset({from_matchpy_expr(expr): 1\n"
      "                                  for expr, count in arg.items()})\n",
      "T/matchpy/replacement/multiset/binding-converted")
+
+fire_multi("c05-optimizer-leaves-dropped-names", ["C05"], OPF, [
+    ("    def visit_Name(self, node):  # noqa: N802\n"
+     "        # What is left of a dropped *args/**kwargs parameter in the body\n"
+     "        # (e.g. in the default get_cache_key) is empty.\n"
+     "        if isinstance(node.ctx, ast.Load):\n"
+     "            if self.drop_args and node.id == self.vararg_name:\n"
+     "                return ast.Tuple(elts=[], ctx=ast.Load())\n"
+     "            if self.drop_kwargs and node.id == self.kwarg_name:\n"
+     "                return ast.Dict(keys=[], values=[])\n"
+     "        return node\n", ""),
+    ("            vararg_name = mdef.args.vararg.arg if mdef.args.vararg else None\n"
+     "            kwarg_name = mdef.args.kwarg.arg if mdef.args.kwarg else None\n",
+     "            vararg_name = kwarg_name = None\n")],
+    "T/optimizer/dropped-parameters-rewritten-in-bodies")
+
+fire("c05-optimizer-temporaries-plain-names", ["C05"], OPF,
+     "_TMP_PREFIX = \"_pymbolic_opt_\"\n",
+     "_TMP_PREFIX = \"\"\n",
+     "T/optimizer/temporaries-cannot-capture-locals")
